@@ -100,6 +100,26 @@ type Scenario struct {
 	SlowMs    int  // the execution of task 1's occurrence t0+2s takes this long (virtual time): later occurrences pile up
 	Skip1     bool // actor A does nothing (task 1 is never scheduled)
 	Late3Ms   int  // if >0 actor B schedules a new task 3 '@every 1s' this long after start (after the release of task 2)
+	OneShot   bool // actor A schedules task 4 with a cron schedule that has exactly one occurrence (t0+2s) instead of task 1
+	// task 2: '@every <Every2S>s' with offset Offset2S (defaults 2 and 1; the offset may be negative or exceed the period)
+	Every2S, Offset2S int
+	// FromCheckpoint: at ReleaseMs actor B does not release task 2 but schedules it again with the last-scheduled time
+	// the checkpointer was last told (what the coordinator does when a task is updated or the process restarts)
+	FromCheckpoint bool
+}
+
+func (sc Scenario) every2() int64 {
+	if sc.Every2S != 0 {
+		return int64(sc.Every2S)
+	}
+	return 2
+}
+
+func (sc Scenario) offset2() int64 {
+	if sc.Every2S != 0 {
+		return int64(sc.Offset2S)
+	}
+	return 1
 }
 
 func scenarios() []Scenario {
@@ -114,6 +134,13 @@ func scenarios() []Scenario {
 		{Name: "slow-executor-2workers", Workers: 2, ReschedMs: 2500, ReleaseMs: 4000, SlowMs: 2500},
 		{Name: "queue-runs-empty-then-schedule", Workers: 1, Skip1: true, ReleaseMs: 1500, Late3Ms: 4500},
 		{Name: "queue-runs-empty-then-schedule-2workers", Workers: 2, Skip1: true, ReleaseMs: 2500, Late3Ms: 4000},
+		// a schedule with a last occurrence, due in a round in which nothing else is due (task 2 released before)
+		{Name: "one-shot-cron-alone", Workers: 1, OneShot: true, ReleaseMs: 1500},
+		{Name: "one-shot-cron-next-to-periodic", Workers: 2, OneShot: true, ReleaseMs: 4500},
+		// re-scheduling from the stored checkpoint with an offset beyond the period / a negative offset
+		{Name: "reschedule-from-checkpoint-offset-beyond-period", Workers: 1, Skip1: true, Every2S: 1, Offset2S: 2, ReleaseMs: 3500, FromCheckpoint: true},
+		{Name: "reschedule-from-checkpoint-negative-offset", Workers: 1, Skip1: true, Every2S: 2, Offset2S: -1, ReleaseMs: 3500, FromCheckpoint: true},
+		{Name: "reschedule-from-checkpoint", Workers: 2, ReschedMs: 2500, ReleaseMs: 4500, FromCheckpoint: true},
 	}
 }
 
@@ -161,7 +188,11 @@ func harness(sc Scenario) vsched.Harness {
 				vsched.Idle()
 				vsched.NoBranch(false)
 				s1, _, _ := scheduler.NewSchedule("@every 1s", o.t0)
-				s2, _, _ := scheduler.NewSchedule("@every 2s", o.t0)
+				s2, _, _ := scheduler.NewSchedule(fmt.Sprintf("@every %ds", sc.every2()), o.t0)
+				s4, _, err4 := scheduler.NewSchedule("2 0 0 1 1 * 2000", o.t0) // sec min hour dom month dow year: 2000-01-01 00:00:02 only
+				if err4 != nil {
+					o.errs = append(o.errs, "one-shot schedule: "+err4.Error())
+				}
 				done := make(chan struct{}, 2)
 				call := func(name string, f func() error) {
 					began := time.Now()
@@ -177,11 +208,19 @@ func harness(sc Scenario) vsched.Harness {
 				if sc.Skip1 {
 					o.opsWanted -= 2
 				}
+				if sc.OneShot {
+					o.opsWanted--
+				}
 				if sc.Late3Ms > 0 {
 					o.opsWanted++
 				}
 				vsched.Go(func() { // actor A: schedule task 1, later re-schedule it (same schedule, new last-scheduled)
 					if sc.Skip1 {
+						done <- struct{}{}
+						return
+					}
+					if sc.OneShot {
+						call("schedule4", func() error { return s.Schedule(sched{id: 4, s: s4, last: o.t0}) })
 						done <- struct{}{}
 						return
 					}
@@ -198,12 +237,23 @@ func harness(sc Scenario) vsched.Harness {
 					done <- struct{}{}
 				})
 				vsched.Go(func() { // actor B: schedule task 2 with offset, release it later
-					call("schedule2", func() error { return s.Schedule(sched{id: 2, s: s2, offset: time.Second, last: o.t0}) })
+					off2 := time.Duration(sc.offset2()) * time.Second
+					call("schedule2", func() error { return s.Schedule(sched{id: 2, s: s2, offset: off2, last: o.t0}) })
 					time.Sleep(time.Duration(sc.ReleaseMs) * time.Millisecond)
 					vsched.Point()
-					call("release2", func() error { return s.Release(2) })
-					o.releaseAt = time.Now()
-					o.released = true
+					if sc.FromCheckpoint {
+						last := o.t0
+						o.rec.mu.Lock()
+						if cps := o.rec.checkpoint[2]; len(cps) > 0 {
+							last = time.Unix(cps[len(cps)-1], 0).UTC()
+						}
+						o.rec.mu.Unlock()
+						call("reschedule2-from-checkpoint", func() error { return s.Schedule(sched{id: 2, s: s2, offset: off2, last: last}) })
+					} else {
+						call("release2", func() error { return s.Release(2) })
+						o.releaseAt = time.Now()
+						o.released = true
+					}
 					vsched.Point()
 					if sc.Late3Ms > 0 {
 						time.Sleep(time.Duration(sc.Late3Ms-sc.ReleaseMs) * time.Millisecond)
@@ -252,7 +302,7 @@ func harness(sc Scenario) vsched.Harness {
 				for _, id := range []scheduler.ID{1, 2, 3} {
 					every, offset, base := int64(1), int64(0), o.t0.Unix()
 					if id == 2 {
-						every, offset = 2, 1
+						every, offset = sc.every2(), sc.offset2()
 					}
 					if id == 3 {
 						base = o.late3Last.Unix()
@@ -300,9 +350,32 @@ func harness(sc Scenario) vsched.Harness {
 					}
 					summary = append(summary, fmt.Sprintf("%d:[%s]", id, strings.Join(occ, ",")))
 				}
+				// the schedule with one occurrence: executed for it once, not before it is due, and never again
+				if sc.OneShot {
+					es := per[4]
+					switch {
+					case len(es) == 0:
+						x.Key, x.Problem = "occurrences-missing", fmt.Sprintf("%s: task 4 (cron with the single occurrence t0+2s) was never executed", sc.Name)
+						return
+					case len(es) > 1:
+						x.Key, x.Problem = "occurrence-twice", fmt.Sprintf("%s: task 4 (cron with the single occurrence t0+2s) executed %d times: %v", sc.Name, len(es), occs(es, o.t0))
+						return
+					case es[0].ScheduledFor != o.t0.Unix()+2:
+						x.Key, x.Problem = "not-an-occurrence", fmt.Sprintf("%s: task 4 executed for t0+%ds, its only occurrence is t0+2s", sc.Name, es[0].ScheduledFor-o.t0.Unix())
+						return
+					case es[0].Start.Before(time.Unix(es[0].ScheduledFor, 0)):
+						x.Key, x.Problem = "too-early", fmt.Sprintf("%s: task 4 executed at clock t0+%v", sc.Name, es[0].Start.Sub(o.t0))
+						return
+					}
+					summary = append(summary, "4:[2]")
+				}
+				if sc.FromCheckpoint && len(per[2]) < 2 {
+					x.Key, x.Problem = "occurrences-missing", fmt.Sprintf("%s: task 2 executed only %v", sc.Name, occs(per[2], o.t0))
+					return
+				}
 				// liveness within the horizon: task 1 ran for every second that elapsed completely before Stop
 				// (the stop happens at >= t0+5.5s of virtual time), unless the executor failed/panicked
-				if !sc.Fail && !sc.Panic && !sc.Skip1 && sc.SlowMs == 0 && len(per[1]) < 4 {
+				if !sc.Fail && !sc.Panic && !sc.Skip1 && !sc.OneShot && sc.SlowMs == 0 && len(per[1]) < 4 {
 					x.Key, x.Problem = "occurrences-missing", fmt.Sprintf("%s: task 1 (every 1s) executed only %v in more than 5s", sc.Name, occs(per[1], o.t0))
 					return
 				}
